@@ -7,7 +7,7 @@ import itertools
 
 ID = "C19"
 LEVEL = "exploration"
-RULE = ("every multiset of <=N (address,count) ranges over a boundary alphabet (bank starts, 10000-block edges, "
+RULE = ("every multiset of <=N (address,count) ranges (in every order of presentation for N <= 3; sorted and reversed for N = 4) over a boundary alphabet (bank starts, 10000-block edges, "
         "overlapping/nested/adjacent/duplicate shapes) x every reach x every limit; shatter over address x count x limit. "
         "non-trivial = distinct (ranges,reach,limit) where at least two input ranges interact (overlap, touch or lie "
         "within reach) or the output differs from the sorted input")
@@ -266,9 +266,12 @@ def shard(acc, item, tier, seed):
         rest = alpha[alpha.index(first):]
         for tail in itertools.combinations_with_replacement(rest, n - 1):
             ranges = (first,) + tail
-            for reach in REACH:
-                for limit in LIMIT:
-                    _run_case(acc, ranges, reach, limit)
+            # the argument is a list: every ORDER of the multiset (n <= 3), the sorted and the reversed order for n = 4
+            orders = sorted(set(itertools.permutations(ranges))) if n <= 3 else [ranges, ranges[::-1]]
+            for order in orders:
+                for reach in REACH:
+                    for limit in LIMIT:
+                        _run_case(acc, order, reach, limit)
         acc.sample({"op": "merge", "ranges": [first] + list(rest[:n - 1]), "reach": 2, "limit": None})
     elif what == "big":
         big_counts = [122, 123, 124, 1967, 1968, 1969, 2500]
